@@ -137,4 +137,4 @@ def random_scenario(rng, allow_conn=True, allow_ctrl=True):
                 drift += rng.randint(0, 3) * max(1, st["n"] // 8)
                 st["jit"] = drift
     return {"origin": "random", "nchan": nchan, "npre": npre, "nsamp": nsamp, "signed": signed, "period": rng.choice([100, 1000, 6400]),
-            "frame0": rng.choice([0, 0, 1000, 1 << 40]), "start": start, "trig": trigs, "steps": steps, "data": data, "oneblock": False}
+            "frame0": rng.choice([0, 0, 1000, 1 << 40, (1 << 32) - rng.randint(1, 3 * nsamp), (1 << 31) - rng.randint(0, 2 * nsamp), (3 << 32) + (1 << 31) + rng.randint(0, 9), (1 << 62) + rng.randint(0, 5)]), "start": start, "trig": trigs, "steps": steps, "data": data, "oneblock": False}
